@@ -50,6 +50,11 @@ type Case struct {
 	// the middle node is a nested graph (Graph[T,T] around a stream-transparent identity node): the mapped input is
 	// built by the pre-node handler of a graph node
 	MidGraph bool `json:"mid_graph,omitempty"`
+	// round 7: the successor is a middle node declared with WithInputKey("k") whose OWN input type is KeyT (a lambda
+	// KeyT -> KeyT): what arrives at such a node — and what Compile validates the mappings against, and what the
+	// pre-node converter must build — is a map[string]any (T), of which the node is handed the entry "k". The harness
+	// reports what the node got as map[string]any{"k": value}; the generator maps to ["k"] only. Implies Mid.
+	KeyT string `json:"key_t,omitempty"`
 	// a unit case (non-empty Unit): convertTo (through the verif hook) on the map Unit for type T,
 	// repeated; overlapping keys allowed (the Go map's iteration order then shows)
 	Unit []Static `json:"unit,omitempty"`
@@ -176,6 +181,8 @@ type tgtHandle interface {
 	// inv: the middle node is an ordinary (invokable) node: in Stream execution the engine concatenates the
 	// converted chunks into one input value before it calls the node
 	build(mid, inv, sub bool, add func(wf wfAPI, succ *compose.WorkflowNode)) (*runFns, error)
+	// the successor is a lambda T -> T behind the input key "k" (WithInputKey): its mapped input is a map[string]any
+	buildKeyed(inv bool, add func(wf wfAPI, succ *compose.WorkflowNode)) (*runFns, error)
 	// a second successor of the same predecessors: a stream-transparent consumer of type T that records every
 	// (converted) chunk it is handed and produces an int
 	tap(rec func(reflect.Value)) *compose.Lambda
@@ -237,6 +244,40 @@ func (tgtOf[T]) build(mid, inv, sub bool, add func(wf wfAPI, succ *compose.Workf
 		rv.Set(reflect.ValueOf(out).Elem())
 		return rv
 	}
+	return fnsOf(ctx, r, box), nil
+}
+
+const inputKey = "k"
+
+func (tgtOf[T]) buildKeyed(inv bool, add func(wf wfAPI, succ *compose.WorkflowNode)) (*runFns, error) {
+	ctx := context.Background()
+	wf := compose.NewWorkflow[Outer, T]()
+	var succ *compose.WorkflowNode
+	if inv {
+		succ = wf.AddLambdaNode("mid", compose.InvokableLambda(func(ctx context.Context, in T) (T, error) {
+			return in, nil
+		}), compose.WithInputKey(inputKey))
+	} else {
+		succ = wf.AddLambdaNode("mid", compose.TransformableLambda(func(ctx context.Context, in *schema.StreamReader[T]) (*schema.StreamReader[T], error) {
+			return in, nil
+		}), compose.WithInputKey(inputKey))
+	}
+	add(wf, succ)
+	wf.End().AddInput("mid")
+	r, err := wf.Compile(ctx)
+	if err != nil {
+		return nil, err
+	}
+	// what the node was handed, reported as the entry of the map that arrived at it
+	box := func(out *T) reflect.Value {
+		rv := reflect.New(reflect.TypeOf((*map[string]any)(nil)).Elem()).Elem()
+		rv.Set(reflect.ValueOf(map[string]any{inputKey: *out}))
+		return rv
+	}
+	return fnsOf(ctx, r, box), nil
+}
+
+func fnsOf[T any](ctx context.Context, r compose.Runnable[Outer, T], box func(out *T) reflect.Value) *runFns {
 	drain := func(sr *schema.StreamReader[T]) ([]reflect.Value, error) {
 		defer sr.Close()
 		var outs []reflect.Value
@@ -280,7 +321,7 @@ func (tgtOf[T]) build(mid, inv, sub bool, add func(wf wfAPI, succ *compose.Workf
 			}
 			return drain(sr)
 		},
-	}, nil
+	}
 }
 
 var srcHandles = map[string]srcHandle{
@@ -308,6 +349,8 @@ var srcHandles = map[string]srcHandle{
 	"map[string]Emb":            srcOf[map[string]Emb]{},
 	"Emb2":                      srcOf[Emb2]{},
 	"*Emb2":                     srcOf[*Emb2]{},
+	"*map[string]string":        srcOf[*map[string]string]{},
+	"map[string]*map[string]string": srcOf[map[string]*map[string]string]{},
 	// opaque leaf types (arrays, slices): direct oracle only, not in the model's universe
 	"map[string][2]int":  srcOf[map[string][2]int]{},
 	"map[string]*[2]int": srcOf[map[string]*[2]int]{},
@@ -343,6 +386,8 @@ var tgtHandles = map[string]tgtHandle{
 	"Emb2":                      tgtOf[Emb2]{},
 	"*Emb2":                     tgtOf[*Emb2]{},
 	"map[string]Emb2":           tgtOf[map[string]Emb2]{},
+	"*map[string]string":        tgtOf[*map[string]string]{},
+	"map[string]*map[string]string": tgtOf[map[string]*map[string]string]{},
 	"[2]int":                    tgtOf[[2]int]{},
 	"*[2]int":                   tgtOf[*[2]int]{},
 	"[]int":                     tgtOf[[]int]{},
@@ -492,6 +537,13 @@ func execute(c *Case, rep int) *outcome {
 	}
 	// fresh source values for every execution, and a pristine twin for the "source unmodified" oracle
 	// inv / twin: the values of the first request; inv2 / twin2: of the second (same runnable)
+	// (a keyed successor is built by the handle of its own type; T stays what arrives at it)
+	bld := func(mid, inv, sub bool, add func(wf wfAPI, succ *compose.WorkflowNode)) (*runFns, error) {
+		if c.KeyT != "" {
+			return tgtHandles[c.KeyT].buildKeyed(inv, add)
+		}
+		return th.build(mid, inv, sub, add)
+	}
 	cur := new(int) // the request being served
 	var tapMu sync.Mutex
 	var tapRec []reflect.Value
@@ -620,7 +672,7 @@ func execute(c *Case, rep int) *outcome {
 	bsI, addI := mk(false)
 	var fns *runFns
 	var cerr error
-	if p, hung := withWatchdog(func() { fns, cerr = th.build(c.Mid, false, c.MidGraph, addI) }); p != nil || hung {
+	if p, hung := withWatchdog(func() { fns, cerr = bld(c.Mid, false, c.MidGraph, addI) }); p != nil || hung {
 		o.Compile, o.CompMsg = "panic", firstLine(fmt.Sprint(p))
 		return o
 	}
@@ -690,7 +742,7 @@ func execute(c *Case, rep int) *outcome {
 		// what the consumer of one result does to it does not show in the others
 		bsB, addB := mk(false)
 		var fnsB *runFns
-		if p, hung := withWatchdog(func() { fnsB, cerr = th.build(c.Mid, false, c.MidGraph, addB) }); p != nil || hung || cerr != nil {
+		if p, hung := withWatchdog(func() { fnsB, cerr = bld(c.Mid, false, c.MidGraph, addB) }); p != nil || hung || cerr != nil {
 			o.Burst = "compile for the concurrent requests differs: " + firstLine(fmt.Sprint(p, cerr))
 		} else {
 			const nb = 4
@@ -845,7 +897,7 @@ func execute(c *Case, rep int) *outcome {
 		withTap = true
 		bsT, addT := mk(false)
 		var fnsT *runFns
-		p, hung := withWatchdog(func() { fnsT, cerr = th.build(c.Mid, false, c.MidGraph, addT) })
+		p, hung := withWatchdog(func() { fnsT, cerr = bld(c.Mid, false, c.MidGraph, addT) })
 		withTap = false
 		if p != nil || hung || cerr != nil {
 			o.TapInv, o.TapMsg = "compile", firstLine(fmt.Sprint(p, cerr))
@@ -869,7 +921,7 @@ func execute(c *Case, rep int) *outcome {
 				withTap = true
 				bsU, addU := mk(true)
 				var fnsU *runFns
-				p, hung := withWatchdog(func() { fnsU, cerr = th.build(c.Mid, false, c.MidGraph, addU) })
+				p, hung := withWatchdog(func() { fnsU, cerr = bld(c.Mid, false, c.MidGraph, addU) })
 				withTap = false
 				if p != nil || hung || cerr != nil {
 					o.TapStr, o.TapMsg = "compile", firstLine(fmt.Sprint(p, cerr))
@@ -904,7 +956,7 @@ func execute(c *Case, rep int) *outcome {
 	// --- Stream on a separately compiled workflow (sources stream their chunks)
 	bsS, addS := mk(true)
 	var fnsS *runFns
-	if p, hung := withWatchdog(func() { fnsS, cerr = th.build(c.Mid, false, c.MidGraph, addS) }); p != nil || hung || cerr != nil {
+	if p, hung := withWatchdog(func() { fnsS, cerr = bld(c.Mid, false, c.MidGraph, addS) }); p != nil || hung || cerr != nil {
 		o.Stream, o.StrMsg = "panic", "second compile differs: "+firstLine(fmt.Sprint(p, cerr))
 		return o
 	}
@@ -1004,7 +1056,7 @@ func execute(c *Case, rep int) *outcome {
 	if c.Mid {
 		bsC, addC := mk(true)
 		var fnsC *runFns
-		if p, hung := withWatchdog(func() { fnsC, cerr = th.build(true, true, false, addC) }); p != nil || hung || cerr != nil {
+		if p, hung := withWatchdog(func() { fnsC, cerr = bld(true, true, false, addC) }); p != nil || hung || cerr != nil {
 			o.Concat, o.ConMsg = "panic", "third compile differs: "+firstLine(fmt.Sprint(p, cerr))
 			return o
 		}
